@@ -151,7 +151,7 @@ pub fn degrees(spec: &AirSpec) -> (Vec<TransitionConstraintDegree>, Vec<Transiti
             _ => TransitionConstraintDegree::new(1),
         })
         .collect();
-    let aux = (0..spec.sum_cols()).map(|_| TransitionConstraintDegree::new(1)).collect();
+    let aux = (0..spec.sum_cols()).map(|_| TransitionConstraintDegree::new(spec.aux_pow.max(1) as usize)).collect();
     (main, aux)
 }
 
@@ -246,7 +246,7 @@ impl<B: Fld> Air for SpecAir<B> {
             if nr >= 2 {
                 inc += aux_rand_elements[(j + 1) % nr].mul_base(m[m.len() - 1]);
             }
-            result[j] = an[j] - ac[j] - inc;
+            result[j] = an[j] - ac[j] - inc.exp((self.spec.aux_pow.max(1) as u64).into());
         }
     }
 
